@@ -35,14 +35,18 @@ struct Case {
     int rand_mode = 0;                 // 0: real srand/rand; >0: scripted PlatformSpecificRand (see stub_rand)
     uint64_t rand_seed = 0;
 };
-struct RunnerCase {
-    std::vector<TestSpec> tests;
+struct Invocation {                    // one CommandLineTestRunner built from one argv
     std::vector<FilterSpec> gf, nf;
-    std::vector<int> gform, nform;     // 0: attached (-gA), 1: separated (-g A)
     bool run_ignored = false, reverse = false;
     uint64_t shuffle_seed = 0;         // 0: no shuffling
     int repeat = 1;
     std::vector<std::string> argv;
+};
+struct RunnerCase {                    // a history of invocations on ONE registry
+    std::vector<TestSpec> tests;
+    std::vector<Invocation> inv;
+    bool destroy_runners = true;       // true: every runner (owner of its filter lists) is destroyed before the next invocation, as
+                                       // CommandLineTestRunner::RunAllTests does; false: all runners stay alive until the registry is gone
 };
 
 // small alphabet: substring / equality / prefix / case relations are frequent
@@ -283,7 +287,12 @@ struct RunExpect {
     bool run_ignored;
     bool shouldrun_agrees;                         // real shouldRun agreed with the model for every test (else selection keys were already raised)
     const char* where;                             // "direct" / "runner"
+    // diagnosis only (later invocations of a runner history): the lists that would be in force if a list kind that this invocation
+    // does not give were left over from the latest earlier invocation that gave one; null when that is the same as gf/nf
+    const std::vector<FilterSpec>* leftover_gf = nullptr; const std::vector<FilterSpec>* leftover_nf = nullptr;
+    const char* leftover_kinds = "";
 };
+static std::string filters_json(const std::vector<FilterSpec>& F);
 static void check_run(Checker& k, const RunExpect& x, size_t from, size_t to, const std::vector<int>& body_before) {
     World& w = k.w; vf::Ctx& c = k.c;
     const std::vector<TestSpec>& T = *w.specs;
@@ -350,7 +359,27 @@ static void check_run(Checker& k, const RunExpect& x, size_t from, size_t to, co
         else exp_run++;
     }
     bool counts_ok = true;
+    // A later invocation on the same registry whose started-set is exactly what the filters of an EARLIER invocation select
+    // (and not what its own filters select): one key for the history defect instead of one per symptom.
+    bool leftover_explains = false;
+    if (x.leftover_gf && x.leftover_nf && x.shouldrun_agrees) {
+        bool differs = false, matches = true; int witness = -1;
+        for (size_t i = 0; i < n; i++) {
+            bool s2 = m_selected(*x.leftover_gf, *x.leftover_nf, T[i]);
+            if (s2 != (bool) sel[i]) { differs = true; if (witness < 0) witness = (int) i; }
+            if (ts_cnt[i] != (s2 ? 1 : 0)) matches = false;
+        }
+        if (differs) c.count("later_invocation_repetitions_where_leftover_filters_would_change_the_selection");
+        if (differs && matches) {
+            leftover_explains = true; counts_ok = false;
+            k.viol(std::string("runner-history:selection-follows-filters-of-an-earlier-invocation:") + x.leftover_kinds,
+                   "this invocation gives group filters " + filters_json(*x.gf) + " and name filters " + filters_json(*x.nf) + " but exactly the tests selected by group filters " +
+                   filters_json(*x.leftover_gf) + " and name filters " + filters_json(*x.leftover_nf) + " (left over from an earlier invocation on the same registry) were started; e.g. test " +
+                   k.tname(witness) + " was started " + std::to_string(ts_cnt[(size_t) witness]) + " time(s)");
+        }
+    }
     for (size_t i = 0; i < n; i++) {
+        if (leftover_explains) break;
         int exp_started = sel[i] ? 1 : 0;
         int exp_body = (sel[i] && (!T[i].ignored || x.run_ignored)) ? 1 : 0;
         int got_body = w.body[i] - body_before[i];
@@ -570,14 +599,27 @@ protected:
     TestOutput* createConsoleOutput() override { return new RecOutput; }
 };
 
+static std::string invocation_sig(const Invocation& iv) {
+    return "F" + filters_sig(iv.gf) + "/" + filters_sig(iv.nf) + (iv.run_ignored ? "|RI" : "") + (iv.reverse ? "|rev" : "") + (iv.shuffle_seed ? "|shuf" : "") + "|r" + std::to_string(iv.repeat);
+}
+
+// One registry, one or more invocations of a CommandLineTestRunner on it. Every repetition of every invocation is judged against
+// the filters given on THAT invocation's command line; the list order is carried over from invocation to invocation (the registry
+// keeps it); run-ignored is sticky (TestRegistry has no way to switch it off again — see assumptions).
 static void exec_runner(vf::Ctx& c, std::shared_ptr<RunnerCase> rc) {
     c.begin([rc] {
-        std::vector<std::string> av;
-        for (const std::string& a : rc->argv) av.push_back(vf::jstr(a));
-        return vf::J().raw("tests_in_registration_order", tests_json(rc->tests)).raw("argv", vf::jarr(av)).str();
+        std::vector<std::string> invs;
+        for (const Invocation& iv : rc->inv) {
+            std::vector<std::string> av;
+            for (const std::string& a : iv.argv) av.push_back(vf::jstr(a));
+            invs.push_back(vf::jarr(av));
+        }
+        return vf::J().raw("tests_in_registration_order", tests_json(rc->tests)).raw("argv_of_each_invocation_on_the_same_registry", vf::jarr(invs))
+                      .k("runner_destroyed_before_next_invocation", rc->destroy_runners).str();
     });
     const std::vector<TestSpec>& T = rc->tests;
     size_t n = T.size();
+    const bool history = rc->inv.size() > 1;
     World w; g_w = &w;
     Checker k(c, w);
     {
@@ -587,67 +629,109 @@ static void exec_runner(vf::Ctx& c, std::shared_ptr<RunnerCase> rc) {
         int st = walk_list(w, order0);
         check_walk(k, st, "registration", order0);
         if (st == 0) {
-            // real selection functions against the model, with chains of our own (the runner builds its own from argv)
-            FilterChain G(rc->gf), N(rc->nf);
-            bool shouldrun_agrees = check_selection_functions(k, rc->gf, rc->nf, G, N);
-            std::vector<const char*> av;
-            for (const std::string& a : rc->argv) av.push_back(a.c_str());
-            w.snapshots.reserve(8); w.snapshot_status.reserve(8);
-            {
-                RecRunner runner((int) av.size(), av.data(), &reg);
-                try { (void) runner.runAllTestsMain(); }
-                catch (const AbortRun& a) {
-                    if (a.why == 2) k.viol("run-does-not-terminate:runner", "the runner produced more than " + std::to_string(w.log_cap) + " callbacks for " + std::to_string(n) + " tests");
-                    c.count("runner_runs_abandoned_on_broken_list");
-                }
-            }
-            UtestShell::setRethrowExceptions(false);
-            UtestShell::restoreDefaultTestTerminator();
-            // split the log into repetitions
-            std::vector<std::pair<size_t, size_t>> reps;
-            size_t start = 0; bool open = false;
-            for (size_t e = 0; e < w.log.size(); e++) {
-                if (w.log[e].kind == E_RUNHDR) { if (open) { reps.push_back({ start, e }); } start = e; open = true; }
-            }
-            if (open) reps.push_back({ start, w.log.size() });
-            if (reps.empty()) c.count("runner_performed_no_run");
-            if ((int) reps.size() != rc->repeat) c.count("runner_repetitions_differ_from_-r");
+            std::vector<std::unique_ptr<RecRunner>> alive;       // runners kept alive (they own the filter lists the registry points to)
+            w.snapshots.reserve(8 * rc->inv.size()); w.snapshot_status.reserve(8 * rc->inv.size());
             std::vector<int> body_acc(n, 0);
             std::vector<int> prev = order0;
-            for (size_t r = 0; r < reps.size(); r++) {
-                if (r >= w.snapshots.size()) { k.viol("callbacks:tests-started-missing", "repetition " + std::to_string(r + 1) + " has a run header but no TestsStarted"); break; }
-                const std::vector<int>& ord = w.snapshots[r];
-                const char* after = (rc->shuffle_seed && rc->reverse && r == 0) ? "reverse+shuffle" : rc->shuffle_seed ? "shuffle" : (rc->reverse && r == 0) ? "reverse" : "run";
-                check_walk(k, w.snapshot_status[r], after, ord);
-                if (w.snapshot_status[r] != 0) break;
-                if (rc->reverse && !rc->shuffle_seed && r == 0) {
-                    std::vector<int> rv(prev.rbegin(), prev.rend());
-                    if (ord != rv) k.viol("reverse:not-the-exact-reverse", "before " + k.ostr(prev) + " after " + k.ostr(ord));
-                    c.count("ops_reverse");
+            bool run_ignored = false, usable = true, nontrivial = false, any_rep = false;
+            const std::vector<FilterSpec>* last_gf = nullptr; const std::vector<FilterSpec>* last_nf = nullptr;   // latest earlier NON-EMPTY lists
+            const std::vector<FilterSpec> none;
+            std::vector<char> prev_sel;
+            std::string sig = std::to_string(n) + (history ? (rc->destroy_runners ? "|H-destroyed" : "|H-alive") : "");
+            for (size_t vi = 0; vi < rc->inv.size() && usable; vi++) {
+                const Invocation& iv = rc->inv[vi];
+                // real selection functions against the model, with chains of our own (the runner builds its own from argv)
+                FilterChain G(iv.gf), N(iv.nf);
+                bool shouldrun_agrees = check_selection_functions(k, iv.gf, iv.nf, G, N);
+                std::vector<const char*> av;
+                for (const std::string& a : iv.argv) av.push_back(a.c_str());
+                size_t log0 = w.log.size(), snap0 = w.snapshots.size();
+                {
+                    std::unique_ptr<RecRunner> runner(new RecRunner((int) av.size(), av.data(), &reg));
+                    try { (void) runner->runAllTestsMain(); }
+                    catch (const AbortRun& a) {
+                        if (a.why == 2) k.viol("run-does-not-terminate:runner", "the runner produced more than " + std::to_string(w.log_cap) + " callbacks for " + std::to_string(n) + " tests");
+                        c.count("runner_runs_abandoned_on_broken_list");
+                        usable = false;                          // (the runner's stack plugin is still installed: no further invocation on this registry)
+                    }
+                    if (rc->destroy_runners) runner.reset(); else alive.push_back(std::move(runner));
                 }
-                if (rc->shuffle_seed) { c.count("ops_shuffle"); if (ord != prev) c.count("shuffles_that_changed_the_order"); else c.count("shuffles_that_kept_the_order"); }
-                // body counters per repetition: replay the log
-                std::vector<int> body_before = body_acc;
-                for (size_t e = reps[r].first; e < reps[r].second; e++) if (w.log[e].kind == E_BODY && w.log[e].idx >= 0) body_acc[(size_t) w.log[e].idx]++;
-                std::vector<int> saved = w.body; w.body = body_acc;
-                RunExpect x{ &ord, &rc->gf, &rc->nf, rc->run_ignored, shouldrun_agrees, "runner" };
-                check_run(k, x, reps[r].first, reps[r].second, body_before);
-                w.body = saved;
-                prev = ord;
+                UtestShell::setRethrowExceptions(false);
+                UtestShell::restoreDefaultTestTerminator();
+                if (iv.run_ignored) run_ignored = true;
+                // ---- what this history exercises
+                if (vi > 0) {
+                    c.count("runner_history_later_invocations");
+                    if (iv.gf.empty() && last_gf) c.count("later_invocations_without_group_filters_after_one_with");
+                    if (iv.nf.empty() && last_nf) c.count("later_invocations_without_name_filters_after_one_with");
+                    if (!iv.run_ignored && run_ignored) c.count("later_invocations_without_-ri_after_one_with");
+                }
+                std::vector<char> sel(n);
+                for (size_t i = 0; i < n; i++) sel[i] = m_selected(iv.gf, iv.nf, T[i]);
+                if (vi > 0 && sel != prev_sel) c.count("later_invocations_selecting_a_different_set_than_the_previous_one");
+                prev_sel = sel;
+                const std::vector<FilterSpec>* lo_g = (iv.gf.empty() && last_gf) ? last_gf : &iv.gf;
+                const std::vector<FilterSpec>* lo_n = (iv.nf.empty() && last_nf) ? last_nf : &iv.nf;
+                bool lo = lo_g != &iv.gf || lo_n != &iv.nf;
+                const char* lo_kinds = (lo_g != &iv.gf && lo_n != &iv.nf) ? "group+name" : lo_g != &iv.gf ? "group" : "name";
+                // ---- split this invocation's part of the log into repetitions
+                std::vector<std::pair<size_t, size_t>> reps;
+                size_t start = log0; bool open = false;
+                for (size_t e = log0; e < w.log.size(); e++) {
+                    if (w.log[e].kind == E_RUNHDR) { if (open) { reps.push_back({ start, e }); } start = e; open = true; }
+                }
+                if (open) reps.push_back({ start, w.log.size() });
+                if (reps.empty()) c.count("runner_performed_no_run");
+                if ((int) reps.size() != iv.repeat) c.count("runner_repetitions_differ_from_-r");
+                bool snapshots_ok = true;
+                for (size_t r = 0; r < reps.size(); r++) {
+                    if (snap0 + r >= w.snapshots.size()) { k.viol("callbacks:tests-started-missing", "repetition " + std::to_string(r + 1) + " has a run header but no TestsStarted"); break; }
+                    const std::vector<int>& ord = w.snapshots[snap0 + r];
+                    int sst = w.snapshot_status[snap0 + r];
+                    const char* after = (iv.shuffle_seed && iv.reverse && r == 0) ? "reverse+shuffle" : iv.shuffle_seed ? "shuffle" : (iv.reverse && r == 0) ? "reverse" : "run";
+                    check_walk(k, sst, after, ord);
+                    if (sst != 0) { snapshots_ok = false; break; }
+                    if (iv.reverse && !iv.shuffle_seed && r == 0) {
+                        std::vector<int> rv(prev.rbegin(), prev.rend());
+                        if (ord != rv) k.viol("reverse:not-the-exact-reverse", "before " + k.ostr(prev) + " after " + k.ostr(ord));
+                        c.count("ops_reverse");
+                    }
+                    if (iv.shuffle_seed) { c.count("ops_shuffle"); if (ord != prev) c.count("shuffles_that_changed_the_order"); else c.count("shuffles_that_kept_the_order"); }
+                    // body counters per repetition: replay the log
+                    std::vector<int> body_before = body_acc;
+                    for (size_t e = reps[r].first; e < reps[r].second; e++) if (w.log[e].kind == E_BODY && w.log[e].idx >= 0) body_acc[(size_t) w.log[e].idx]++;
+                    std::vector<int> saved = w.body; w.body = body_acc;
+                    RunExpect x{ &ord, &iv.gf, &iv.nf, run_ignored, shouldrun_agrees, "runner" };
+                    if (lo) { x.leftover_gf = lo_g; x.leftover_nf = lo_n; x.leftover_kinds = lo_kinds; }
+                    check_run(k, x, reps[r].first, reps[r].second, body_before);
+                    w.body = saved;
+                    prev = ord;
+                    any_rep = true;
+                }
+                for (size_t s2 = snap0; s2 < w.snapshot_status.size(); s2++) if (w.snapshot_status[s2] != 0) snapshots_ok = false;
+                if (!snapshots_ok) usable = false;
+                if (usable) {                                        // otherwise the broken list was already reported with the operation that broke it
+                    std::vector<int> after;
+                    st = walk_list(w, after);
+                    check_walk(k, st, (iv.reverse || iv.shuffle_seed) && reps.empty() ? "reverse-or-shuffle" : "run", after);
+                    if (st != 0) usable = false;
+                }
+                bool disc = discriminating(iv.gf, T, false) || discriminating(iv.nf, T, true);
+                if (disc) { nontrivial = true; c.count("configurations_with_discriminating_filter"); }
+                if ((iv.reverse || iv.shuffle_seed) && n >= 3) nontrivial = true;
+                count_filter_shapes(c, iv.gf, "group"); count_filter_shapes(c, iv.nf, "name");
+                sig += "|" + invocation_sig(iv);
+                c.count("runner_invocations");
+                if (!iv.gf.empty()) last_gf = &iv.gf;
+                if (!iv.nf.empty()) last_nf = &iv.nf;
             }
-            bool snapshots_ok = true;
-            for (int s2 : w.snapshot_status) if (s2 != 0) snapshots_ok = false;
-            if (snapshots_ok) {                                  // otherwise the broken list was already reported with the operation that broke it
-                std::vector<int> after;
-                st = walk_list(w, after);
-                check_walk(k, st, (rc->reverse || rc->shuffle_seed) && reps.empty() ? "reverse-or-shuffle" : "run", after);
+            if (history) {
+                c.count("runner_histories");
+                c.count(rc->destroy_runners ? "runner_histories_with_each_runner_destroyed_before_the_next" : "runner_histories_with_all_runners_kept_alive");
+                c.count("runner_histories_of_" + std::to_string(rc->inv.size()) + "_invocations");
             }
-            bool nontrivial = discriminating(rc->gf, T, false) || discriminating(rc->nf, T, true);
-            if (nontrivial) c.count("configurations_with_discriminating_filter");
-            if ((rc->reverse || rc->shuffle_seed) && n >= 3) nontrivial = true;
-            count_filter_shapes(c, rc->gf, "group"); count_filter_shapes(c, rc->nf, "name");
-            if (nontrivial && !reps.empty()) c.nontrivial(std::to_string(n) + "|F" + filters_sig(rc->gf) + "/" + filters_sig(rc->nf) + (rc->run_ignored ? "|RI" : "") + (rc->reverse ? "|rev" : "") + (rc->shuffle_seed ? "|shuf" : "") + "|r" + std::to_string(rc->repeat));
-            c.count("runner_invocations");
+            if (nontrivial && any_rep) c.nontrivial(sig);
+            alive.clear();
         }
         w.reg = nullptr;
         destroy_world(w);
@@ -815,32 +899,54 @@ static void sec_filter_cross(vf::Ctx& c) {
     exec_direct(c, cs, true);
 }
 
-static void sec_runner(vf::Ctx& c) {
-    vf::Rng& r = c.rng;
-    auto rc = std::make_shared<RunnerCase>();
-    Pools p = gen_pools(r, KR, NKR);
-    gen_tests(r, gen_size(c), p, rc->tests);
-    rc->gf = gen_filters(r, p.groups, KR, NKR);
-    rc->nf = gen_filters(r, p.names, KR, NKR);
-    rc->run_ignored = r.chance(30);
-    rc->reverse = r.chance(30);
-    if (r.chance(45)) { uint64_t s = gen_seed(r) & 0xFFFFFFFFull; rc->shuffle_seed = s ? s : 1; }
-    rc->repeat = 1 + (int) r.below(3);
+static void gen_invocation(vf::Rng& r, const Pools& p, Invocation& iv) {
+    iv.gf = gen_filters(r, p.groups, KR, NKR);
+    iv.nf = gen_filters(r, p.names, KR, NKR);
+    iv.run_ignored = r.chance(30);
+    iv.reverse = r.chance(30);
+    if (r.chance(45)) { uint64_t s = gen_seed(r) & 0xFFFFFFFFull; iv.shuffle_seed = s ? s : 1; }
+    iv.repeat = 1 + (int) r.below(3);
     // argv in random option order
     std::vector<std::vector<std::string>> opts;
     auto filt = [&](const FilterSpec& f, const char* letter) {
         std::string o = std::string("-") + (f.invert ? "x" : "") + (f.strict ? "s" : "") + letter;
         if (r.chance(50)) opts.push_back({ o + f.text }); else opts.push_back({ o, f.text });
     };
-    for (const FilterSpec& f : rc->gf) filt(f, "g");
-    for (const FilterSpec& f : rc->nf) filt(f, "n");
-    if (rc->run_ignored) opts.push_back({ "-ri" });
-    if (rc->reverse) opts.push_back({ "-b" });
-    if (rc->shuffle_seed) { if (r.chance(50)) opts.push_back({ "-s" + std::to_string(rc->shuffle_seed) }); else opts.push_back({ "-s", std::to_string(rc->shuffle_seed) }); }
-    if (rc->repeat != 1 || r.chance(30)) opts.push_back({ "-r" + std::to_string(rc->repeat) });
+    for (const FilterSpec& f : iv.gf) filt(f, "g");
+    for (const FilterSpec& f : iv.nf) filt(f, "n");
+    if (iv.run_ignored) opts.push_back({ "-ri" });
+    if (iv.reverse) opts.push_back({ "-b" });
+    if (iv.shuffle_seed) { if (r.chance(50)) opts.push_back({ "-s" + std::to_string(iv.shuffle_seed) }); else opts.push_back({ "-s", std::to_string(iv.shuffle_seed) }); }
+    if (iv.repeat != 1 || r.chance(30)) opts.push_back({ "-r" + std::to_string(iv.repeat) });
     for (size_t i = opts.size(); i > 1; i--) std::swap(opts[i - 1], opts[r.below(i)]);
-    rc->argv.push_back("c02");
-    for (auto& o : opts) for (auto& a : o) rc->argv.push_back(a);
+    iv.argv.push_back("c02");
+    for (auto& o : opts) for (auto& a : o) iv.argv.push_back(a);
+}
+
+static void sec_runner(vf::Ctx& c) {
+    vf::Rng& r = c.rng;
+    auto rc = std::make_shared<RunnerCase>();
+    Pools p = gen_pools(r, KR, NKR);
+    gen_tests(r, gen_size(c), p, rc->tests);
+    rc->inv.emplace_back();
+    gen_invocation(r, p, rc->inv.back());
+    exec_runner(c, rc);
+}
+
+// histories: 2..5 invocations (each with its own argv: filter lists of either kind present or absent, -ri, -b, -s, -r) on the SAME
+// registry, the way a main() that calls CommandLineTestRunner::RunAllTests more than once uses the global registry
+static void sec_runner_history(vf::Ctx& c) {
+    vf::Rng& r = c.rng;
+    auto rc = std::make_shared<RunnerCase>();
+    Pools p = gen_pools(r, KR, NKR);
+    size_t n = r.chance(50) ? 1 + r.below(12) : gen_size(c);
+    gen_tests(r, n, p, rc->tests);
+    rc->destroy_runners = r.chance(50);
+    size_t ninv = 2 + (r.chance(60) ? 0 : r.below(4));
+    for (size_t i = 0; i < ninv; i++) {
+        rc->inv.emplace_back();
+        gen_invocation(r, p, rc->inv.back());
+    }
     exec_runner(c, rc);
 }
 
@@ -854,6 +960,7 @@ int main(int argc, char** argv) {
         { "order_operations", 15000, 200000, sec_order, false },
         { "order_operations_stubbed_rand", 8000, 100000, sec_order_stubbed, false },
         { "command_line_runner", 12000, 150000, sec_runner, false },
+        { "command_line_runner_histories", 10000, 120000, sec_runner_history, false },
     };
     return vf::harness_main(argc, argv, S, nullptr);
 }
